@@ -13,13 +13,14 @@ func init() {
 	register(&Prop{
 		ID:        "C18",
 		Level:     "other",
-		Technique: "byte-count algebra: the produce request writer (produceRequest.AppendTo, seqRecBatch.appendTo, promisedRec.appendTo) and the size estimators (baseProduceRequestLength, tryAddBatch, wireLengthForProduceVersion, newRecordBatch, calculateRecordNumbers) are each reduced, by partial evaluation of their version guards per produce-version class, to linear forms over {constant bytes, uvarint-prefix terms, topic/id/txn-id lengths, batch lengths} and compared level by level; dominance and who-may-call rules for the batch-size guard; shape rules for the compression re-patching and CRC in appendTo",
+		Technique: "byte-count algebra: the produce request writer (produceRequest.AppendTo, seqRecBatch.appendTo, promisedRec.appendTo) and the size estimators (baseProduceRequestLength, tryAddBatch, wireLengthForProduceVersion, newRecordBatch, calculateRecordNumbers) are each reduced, by partial evaluation of their version guards per produce-version class, to linear forms over {constant bytes, uvarint-prefix terms, topic/id/txn-id lengths, batch lengths} and compared level by level; dominance and who-may-call rules for the batch-size guard; shape rules for the compression re-patching and CRC in appendTo; assumption-pruned CFG reachability (three-valued guard evaluation) for the zstd-below-v7 refusal in mkCompressFlags and compressor.Compress",
 		Explanation: "(1) for every (version the sink believes, version the request is written at) pair that can occur - equal versions; believed v13 but written v11/v12 because produceMax is lowered; believed unknown (-1) and written at any version - the estimate is at least the written bytes at the request level (baseProduceRequestLength vs request header + fixed request fields + tag sections), per new topic and per added partition, decided at minimal uvarint widths and for the coefficient of every length symbol; tryAddBatch refuses when wireLength+estimate exceeds wireLengthLimit before adding, and createReq starts from baseProduceRequestLength with limit cfg.maxBrokerWriteBytes; " +
 			"(2) the per-record estimate (calculateRecordNumbers) has exactly the terms promisedRec.appendTo writes, and the fixed batch overhead constant equals the fixed fields seqRecBatch.appendTo writes; " +
 			"(3) appendRecord is called only from tryBuffer, after the `frozen || newBatchLength > maxBatchBytes` refusal; tryAddBatch freezes a batch before adding it to a request; recBuf.maxRecordBatchBytes comes from maxRecordBatchBytesForTopic, which is the minimum of the configured batch limit and the write limit minus the single-partition overhead; " +
 			"(5) header consistency: maxTimestampDelta is a running maximum and firstTimestamp comes from the first record only (appendRecord is their only writer), the first record's delta is 0, appendTo writes lastOffsetDelta = len(records)-1, firstTimestamp, firstTimestamp+maxTimestampDelta, the producer id/epoch/sequence it was given (sequence 0 only without idempotence), the record count, and each record with its index as offset delta and its stored length/timestamp delta; " +
-			"(4) in appendTo the CRC is the last write into the batch, the length/attribute fields are re-patched only inside the `compressed is shorter` arm (each by the savings), and the flexible defer rebuilds dst as new-prefix + batch.",
-		NotDecided:  "byte-exact decodability of the written request; that appendTo writes exactly wireLength bytes for the record section beyond the term-parity of clause 2; uvarint prefixes wider than one byte (e.g. the 2 MiB batch edge when the version is unknown).",
+			"(4) in appendTo the CRC is the last write into the batch, the length/attribute fields are re-patched only inside the `compressed is shorter` arm (each by the savings), and the flexible defer rebuilds dst as new-prefix + batch; " +
+			"(6) zstd (attribute codec 4) is only written from produce v7: mkCompressFlags returns CompressDisableZstd on every path with version < 7; seqRecBatch.appendTo / appendToAsMessageSet call Compress with mkCompressFlags(<their unmodified version parameter>)... and produceRequest.AppendTo hands them produceRequest.version; in (*compressor).Compress every iteration of the flag loop whose element is CompressDisableZstd sets the disable variable (never reset, loop never left early), the codec the compression switch dispatches on is the codec returned, and no store of a preference into that variable is reachable while `preference == CodecZstd` and the disable variable is set (three-valued pruning of branch edges, tag-switch arms included), so a disabled zstd falls through to the next preference or to no compression.",
+		NotDecided:  "byte-exact decodability of the written request; that appendTo writes exactly wireLength bytes for the record section beyond the term-parity of clause 2; uvarint prefixes wider than one byte (e.g. the 2 MiB batch edge when the version is unknown); for clause 6: user-supplied Compressor implementations (only the built-in compressor is analysed), the client-telemetry use of Compress (metrics_714.go, not a produce request), and that the produce version a request is written at equals produceRequest.version beyond the argument check (C18 clause 1 / C15).",
 		Assumptions: []string{"the kmsg request header is 4+2+2+4 bytes, a non-compact nullable client id and, for flexible requests, one tag byte (cross-checked against pkg/kmsg RequestFormatter.AppendRequest in this tree)"},
 		Run:         runC18,
 	})
@@ -907,6 +908,7 @@ func runC18(c *Ctx) {
 	c18appendTo(c, m)
 	c18header(c, m)
 	c18messageSetWrap(c, m)
+	c18round4(c, m)
 }
 
 // c18messageSetWrap: for message sets (produce v0-v2) a compressed batch is a
